@@ -270,4 +270,16 @@ def run(ctx):
         r.ok("IO.set_interactive forwards to the input")
     elif si:
         r.fail(si, si.node, "IO.set_interactive", "IO.set_interactive does not reach the input")
+
+    # ---------------------------------------------------------------- R7 / R8 (shared rules, decided here for the switches' sake)
+    from .c10 import _gate_table, GATE
+    from .c18 import interactive_rule
+
+    r = ctx.rule("C09-R7", "TABLE", "what the quiet and verbosity switches set is what the write gate decides on: "
+                 "quiet refuses first, then the levels in ascending order (same table as C10-R3)", reference=11)
+    out_cls = ctx.cls("clikit.api.io.output.Output")
+    gate_fn = p.lookup_method(out_cls, GATE)
+    ctx.require(gate_fn is not None, "Output._may_write missing")
+    _gate_table(ctx, r, gate_fn)
+    interactive_rule(ctx, "C09-R8", reference=3)
     return ctx.results
